@@ -195,7 +195,7 @@ var globalAssumptions = []string{
 	"govc itself (go/ssa -> SMT translation, loop cutting, effect computation) and golang.org/x/tools go/ssa v0.29.0",
 	"SMT solvers z3 5.1.0 (z3-new), z3 4.8.12, cvc5 1.0.3: an 'unsat' answer from one of them is taken as a proof",
 	"Go int/int64 arithmetic is treated as mathematical (no wrap-around) except in functions marked 'arith wrap' or 'overflow'",
-	"no string or slice is longer than 2^56 bytes; allocation never fails; the garbage collector is invisible",
+	"no string or slice is longer than 2^46 elements; allocation never fails; the garbage collector is invisible",
 	"fortio.org/log calls have no effect on program state; external (non-repo) callees without an assumed contract return unconstrained values and, unless in a package listed as pure, havoc the heap",
 	"map keys containing strings: a lookup may hit any present content-equal key (exact Go semantics), but contract expressions compare such keys structurally",
 	"inlined callees: loop-free repo functions without their own contract are verified in place at every call site (no separate contract)",
